@@ -92,8 +92,8 @@ type walker struct {
 	pv     *Prov
 	seenAt map[provAtKey]bool
 	seen   map[provKey]bool
-	out   []Src
-	depth int
+	out    []Src
+	depth  int
 }
 
 // Sources returns the leaves v.path may come from.
@@ -263,6 +263,12 @@ func (w *walker) call(v ssa.Value, cc *ssa.CallCommon, res int, path []string) {
 	if b, ok := cc.Value.(*ssa.Builtin); ok && b.Name() == "append" {
 		for i, a := range cc.Args {
 			if i > 0 && w.pv.AppendBaseOnly {
+				break
+			}
+			if i == 0 && w.pv.AppendBaseOnly && len(cc.Args) > 1 && emptySlice(a) {
+				// append(make([]T, 0, n), x...) / append([]T(nil), x...): the copy idiom - the
+				// result starts with the appended material
+				w.val(cc.Args[1], path)
 				break
 			}
 			w.val(a, path)
@@ -691,4 +697,22 @@ func Defs(v ssa.Value) []ssa.Value {
 	}
 	walk(v)
 	return out
+}
+
+// emptySlice: a nil slice constant or a make with constant length 0.
+func emptySlice(v ssa.Value) bool {
+	switch x := Unwrap(v).(type) {
+	case *ssa.Const:
+		return x.IsNil()
+	case *ssa.MakeSlice:
+		k, ok := ConstInt(x.Len)
+		return ok && k == 0
+	case *ssa.Slice:
+		// new([n]T)[:0]
+		if x.High != nil {
+			k, ok := ConstInt(x.High)
+			return ok && k == 0
+		}
+	}
+	return false
 }
